@@ -36,8 +36,8 @@ class NumericalSolver:
         else:             # create anonymous node
             p.part_units()
             value, units = p.value_raw, p.units_raw
-        with UnitEnvironment(self.env.units):                
-            unit = Quantity(float(value), units)
+        # custom units of the environment are already registered by solve()
+        unit = Quantity(float(value), units)
         unit.symbol = expr
         return unit
         
